@@ -407,6 +407,9 @@ fn big(a: &Args) {
         ("ss_u16", 4096, 60000), ("ss_u32", 1024, 20000), ("ss_u16", 256, 100000), ("smh_f64_fnv", 1024, 5000), ("smh_f32_fnv", 4096, 50),
         ("smh2_u64_fnv", 1024, 5000), ("smh2_u32_xx", 256, 3000), ("pmh3", 1024, 3000), ("pmh2", 512, 2000), ("pmh3a", 1024, 3000),
         ("ss_u32", 4096, 7), ("smh_f64_no", 2048, 3), ("ss_def_u16", 4096, 9000), ("ss_def_u32", 4096, 40),
+        // sketches far larger than the stream: singletons and sets dominated by one heavy entry
+        ("pmh3", 10000, 1), ("pmh3", 20000, 5), ("pmh3a", 10000, 1), ("pmh3a", 30000, 4), ("pmh2", 10000, 2), ("pmh3asha", 8192, 1),
+        ("smh2_u64_fnv", 20000, 2), ("smh_f64_fnv", 30000, 1), ("ss_u32", 30000, 2),
     ];
     if thorough {
         plan.push(("ss_u16", 4096, 1000000));
@@ -428,7 +431,10 @@ fn big(a: &Args) {
                 m: *m,
                 ss: if kind.starts_with("ss_") { Some(SsParams { b: 1.001, m: *m as u64, a: 20.0, q: if *kind == "ss_u16" { 65534 } else { 100000 } }) } else { None },
             };
-            let items: Vec<Item> = (0..*n).map(|_| Item { id: rng.random::<u64>() >> 1, w: if is_pmh { weight(2, &mut rng) } else { 1.0 } }).collect();
+            let dominated = is_pmh && *n <= 8 && *m >= 8000;
+            let items: Vec<Item> = (0..*n)
+                .map(|k| Item { id: rng.random::<u64>() >> 1, w: if dominated { if k == 0 { 1e9 } else { 1.0 + k as f64 * 0.25 } } else if is_pmh { weight(2, &mut rng) } else { 1.0 } })
+                .collect();
             let res = catch(|| {
                 // expected: join of single-item tables
                 let min = is_min(kind);
@@ -472,8 +478,42 @@ fn big(a: &Args) {
                 let gsig = sk.sig();
                 let mut bad = 0usize;
                 let mut first: Option<usize> = None;
+                // identities under which the streamed items are stored: a position of a non-empty set must hold one of them
+                let mut idents: std::collections::HashSet<u64> = std::collections::HashSet::new();
+                if gsig.is_some() {
+                    for it in &items {
+                        if is_pmh {
+                            idents.insert(it.id);
+                        } else {
+                            let mut one = make(&Cfg { kind: cfg.kind.clone(), m: 1, ss: None });
+                            one.sketch(it);
+                            idents.insert(one.sig().unwrap()[0]);
+                        }
+                    }
+                }
+                // ProbMinHash3 and 3a must give the same signature for the same set
+                let twin: Option<Vec<u64>> = if *kind == "pmh3" || *kind == "pmh3a" {
+                    let mut t = make(&Cfg { kind: if *kind == "pmh3" { "pmh3a".to_string() } else { "pmh3".to_string() }, m: *m, ss: None });
+                    let ents = t.entries();
+                    let mut rev: Vec<Item> = items.clone();
+                    rev.reverse();
+                    t.batch(&rev, ents[ents.len() - 1]);
+                    t.sig()
+                } else {
+                    None
+                };
                 for p in 0..*m {
-                    let ok = if sk.regs_public() { got[p] == exp[p] } else { gsig.as_ref().map(|g| g[p] == who[p]).unwrap_or(true) };
+                    let mut ok = if sk.regs_public() { got[p] == exp[p] } else { gsig.as_ref().map(|g| g[p] == who[p]).unwrap_or(true) };
+                    if let Some(g) = &gsig {
+                        if !idents.contains(&g[p]) {
+                            ok = false; // placeholder or foreign identity
+                        }
+                        if let Some(t) = &twin {
+                            if t[p] != g[p] {
+                                ok = false;
+                            }
+                        }
+                    }
                     if !ok {
                         bad += 1;
                         if first.is_none() {
